@@ -67,7 +67,7 @@ def enqueuer_order(raw):
 def oracle(prog, s, cl, raw):
     ev = G.events(raw)
     m = re.search(r'^(\d+) UAF (\S+)', raw, flags=re.M)
-    if m: return 'thread %s accessed %s: a call_rcu_data structure that had already been released (helper freed under a caller that had selected it)' % (m.group(1), m.group(2))
+    if m: return ('thread %s accessed %s: the completion object of an rcu_barrier() after its last reference was dropped and it was released' if m.group(2).startswith('cmp') else 'thread %s accessed %s: a call_rcu_data structure that had already been released (helper freed under a caller that had selected it)') % (m.group(1), m.group(2))
     if 'DEADLOCK' in raw: return 'stuck state: an application thread is blocked for ever (rcu_barrier / call_rcu_data_free never returns)'
     if 'STEP LIMIT' in raw: return 'live-lock: step limit reached'
     so = oracles.sleeper_order(raw) or oracles.waker_order(raw) or enqueuer_order(raw)
@@ -132,6 +132,12 @@ def handshake_cases(ctx):
     for k in (120, 160, 200, 260):
         out.append(('C0B', '>0' + '0a' * k + '@1' + '0a' * 40 + '1b' * 300 + '0a' * 100))
         out.append(('C0B/()', '>0' + '0a' * k + '@2' + '0a' * 40 + '2c' * 300 + '0a' * 100))
+    # (5) the completion object of rcu_barrier() is reference-counted: the caller frozen around its look at the countdown, the helper frozen j steps into the marker
+    #     callback (in particular between the decrement that brings the countdown to zero and its wake-up path), the caller runs to completion - it may drop its
+    #     reference but the object must survive until the helper has dropped its own (released objects are quarantined: a later access is reported)
+    for k in range(4, 44, 2 if q else 1):
+        for j in range(16, 90, 2 if q else 1):
+            out.append(('C0B', '>0' + '0a' * k + '1b' * j + '>0' + '1b' * 300))
     for k in range(0, 110, 1):
         for pre in ((150, 40) if q else (150, 60, 40, 25)):
             out.append(('C0B', '>0' + '1b' * pre + '0a' * k + '1b' * 300 + '>0'))
